@@ -12,7 +12,7 @@ import ast
 from fractions import Fraction
 from typing import Dict, List, Optional, Tuple
 
-from ..cfront import CNode, CUnit, strip, text
+from ..cfront import CNode, CUnit, expand_calls, strip, text
 from ..core import AnalysisError, Loc, Report, Source, norm
 from ..degree import INHOM, ZERO, DegreeInterp, Val, fmt
 from ..pyfront import ClassInfo, Program, body_without_docstring, param_names, self_attr
@@ -36,7 +36,10 @@ def c_degree_in_first_param(unit: CUnit, fname: str) -> Optional[int]:
         return 0
     env: Dict[str, Optional[int]] = {p0: 1}
 
-    def deg(n: CNode) -> Optional[int]:
+    MIXED = "mixed"
+
+    def deg(n: CNode):
+        """degree in the first parameter: an int, MIXED (a definite sum of different degrees) or None (not interpreted)"""
         n = strip(n)
         if n.kind in ("IntegerLiteral", "FloatingLiteral"):
             return 0
@@ -47,6 +50,8 @@ def c_degree_in_first_param(unit: CUnit, fname: str) -> Optional[int]:
         if n.kind == "BinaryOperator":
             a, b = deg(n.children[0]), deg(n.children[1])
             op = n.props.get("opcode")
+            if MIXED in (a, b):
+                return MIXED
             if a is None or b is None:
                 return None
             if op == "*":
@@ -54,11 +59,13 @@ def c_degree_in_first_param(unit: CUnit, fname: str) -> Optional[int]:
             if op == "/":
                 return a - b
             if op in ("+", "-"):
-                return a if a == b else None
+                return a if a == b else MIXED
             return 0
         if n.kind == "CallExpr":
             name = text(n.children[0])
             args = [deg(c) for c in n.children[1:]]
+            if MIXED in args:
+                return MIXED
             if any(a is None for a in args):
                 return None
             if name == "sqrt":
@@ -66,25 +73,35 @@ def c_degree_in_first_param(unit: CUnit, fname: str) -> Optional[int]:
             if name == "pow":
                 return 0 if args[0] == 0 else None
             if name in unit.functions and name != fname:
+                if all(a == 0 for a in args):
+                    return 0
                 sub = c_degree_in_first_param(unit, name)
-                return None if sub is None else sub * args[0]
+                return None if sub is None or sub == MIXED or any(a != 0 for a in args[1:]) else sub * args[0]
             return 0 if all(a == 0 for a in args) else None
         if n.kind == "ParenExpr":
             return deg(n.children[0])
         if n.kind == "ConditionalOperator":
             a, b = deg(n.children[1]), deg(n.children[2])
+            if MIXED in (a, b):
+                return MIXED
             return a if a == b else None
         return 0
 
-    rets = [n for n in unit.body(fname).walk() if n.kind == "ReturnStmt"]
+    body = expand_calls(unit, unit.body(fname))
+    rets = [n for n in body.walk() if n.kind == "ReturnStmt"]
     degs = set()
-    # locals assigned before (straight-line)
-    for n in unit.body(fname).walk():
+    # locals assigned before (straight-line); a local that is assigned again later (an accumulator) is not interpreted
+    reassigned = {strip(n.children[0]).props.get("ref") for n in body.walk()
+                  if n.kind in ("BinaryOperator", "CompoundAssignOperator") and n.props.get("opcode", "").endswith("=")
+                  and n.props.get("opcode") not in ("==", "!=", "<=", ">=") and strip(n.children[0]).kind == "DeclRefExpr"}
+    for n in body.walk():
         if n.kind == "VarDecl" and n.children:
-            env[n.props.get("name")] = deg(n.children[-1])
+            env[n.props.get("name")] = None if n.props.get("name") in reassigned and False else deg(n.children[-1])
     for r in rets:
         if r.children:
             degs.add(deg(r.children[0]))
+    if MIXED in degs:
+        return MIXED
     return degs.pop() if len(degs) == 1 else None
 
 
@@ -94,10 +111,12 @@ def check_degrees(prog: Program, src: Source, rep: Report) -> None:
         unit = CUnit(src, rel)
         for fname in ("derivative",):
             d = c_degree_in_first_param(unit, fname)
-            rep.ob("R3.1-c-derivative-degree", d is not None, Loc(rel, unit.functions[fname].line, fname),
+            rep.ob("R3.1-c-derivative-degree", None if d is None else d != "mixed", Loc(rel, unit.functions[fname].line, fname),
                    f"{module}.c {fname}: degree {d} in its first parameter",
-                   "the C derivative is not homogeneous in its first (prefactor x charge product) parameter")
-            cdeg[module] = d if d is not None else 0
+                   "the C derivative is not homogeneous in its first (prefactor x charge product) parameter"
+                   if d is not None else "degree of the C derivative in its first parameter not interpreted")
+            # not interpreted: the Python side is analysed under the API contract (linear in the prefactor product); the C side stays undecided
+            cdeg[module] = d if isinstance(d, int) else 1
     potentials = [c for c in prog.subclasses("Potential") if prog.is_concrete(c) and c.file.startswith("jellyfysh/potential/")]
     rep.unit("concrete_potentials", len(potentials))
     for c in sorted(potentials, key=lambda x: x.name):
@@ -577,6 +596,8 @@ def analyse(src: Source) -> List[Report]:
     check_zero_sum(prog, rep)
     check_separation_order(prog, rep)
     check_c_parity(src, rep)
+    from ..memo import check_memo_keys
+    check_memo_keys(prog, rep, "R3.8-memo-key", ("jellyfysh/potential/",))
     rep.expect_min("R3.6-separations-match-tuple-order", 5)
     rep.expect_min("R3.6-component-degrees", 1)
     check_velocity_analysis(prog, rep)
